@@ -435,3 +435,65 @@ func VerifC09_q_reloadWhileReleasing() {
 		}
 	}
 }
+
+// BOUND: topology 1 loaded through updateConfigMap; a deployment (replicas 1) with a reserving policy (immutable, never); its pod is bound, deleted and the event handled (the address is in the app's reserve); the replacement pod's Filter re-keys the reserved address to the pod while, as a second logical thread inside any one window right before/after a store call of that Filter (symbolic window 0..6), a reload through updateConfigMap (same configuration, other text) runs; interleavings in which the reload would have to wait for the table lock are discarded (if the Filter offers no window, the reload runs right after it). The re-keying made before or while the reload was in progress must be kept: memory and store agree and name the replacement pod
+func VerifC09_q_reloadWhileRebinding() {
+	w := vpNewWorld(1, false)
+	text0, _ := vpConfig(1, 0)
+	w.configMap = text0
+	if _, err := w.plugin.updateConfigMap(); err != nil {
+		return
+	}
+	floatingip.VerifRotate(w.innerIPAM())
+	w.setDeployment(1)
+	policy := nondetPick("immutable", "never")
+	name := vpPodNameOf(vpKindDp, 0)
+	w.createPod(vpMakePod(name, "U1", vpKindDp, policy, "", ""))
+	w.syncListers()
+	nodes, err := w.filter(name, "n1", "n2", "n3")
+	if err != nil || len(nodes) == 0 || w.bind(name, nodes[0]) != nil {
+		return
+	}
+	w.setRunning(name)
+	ip := vpBoundIPs(w.pods[name])[0]
+	w.syncListers()
+	w.deletePod(name)
+	w.syncListers()
+	for len(w.pending) > 0 {
+		_ = w.handleEvent(0)
+	}
+	repl := vpPodNameOf(vpKindDp, 7)
+	w.createPod(vpMakePod(repl, "U2", vpKindDp, policy, "", ""))
+	w.syncListers()
+	reloaded := false
+	w.interferer = func() {
+		w.configMap = " " + text0
+		if _, err := w.plugin.updateConfigMap(); err == nil {
+			reloaded = true
+		}
+	}
+	w.windowAt = nondetInt(0, 6)
+	approved, ferr := w.filter(repl, "n1", "n2", "n3")
+	w.finishInterference()
+	if w.interferer != nil {
+		// the Filter offered no window the reload could run in (its store calls are made under the table lock): the
+		// reload runs right after it
+		f := w.interferer
+		w.interferer = nil
+		f()
+	} else {
+		verifReach("reload-inside-rebinding-filter?")
+	}
+	if !reloaded || ferr != nil || len(approved) == 0 {
+		return
+	}
+	verifReach("reload-and-rebinding-filter-done")
+	owned := false
+	for _, e := range w.dump() {
+		if e.IP == ip && e.Allocated && e.Key == vpKeyOf(w.pods[repl]) {
+			owned = true
+		}
+	}
+	verifAssert("C09/rebind-during-reload-kept", owned, "the re-keying of a reserved address to the replacement pod, made while a reload was in progress, is missing from the table")
+	verifAssert("C09/agree-after-rebind-during-reload", w.agree(), "memory and store disagree after a reload that overlapped the re-keying of a reserved address")
+}
